@@ -80,10 +80,8 @@ theorem compileBlocks_ok (cons : List Con) (dummy : Nat) (rows : List CRow) (K :
       split at h
       · cases h
       · rename_i e3 he3
-        split at h
-        · cases h
-        · simp only [pure, Except.pure, Except.ok.injEq, Prod.mk.injEq] at h
-          exact ⟨e1, e2, e3, he1, he2, he3, h.1.symm, h.2.symm⟩
+        simp only [pure, Except.pure, Except.ok.injEq, Prod.mk.injEq] at h
+        exact ⟨e1, e2, e3, he1, he2, he3, h.1.symm, h.2.symm⟩
 
 
 /-! ### semantics of the three kinds of blocks -/
